@@ -1,0 +1,91 @@
+//! Verification hook (only compiled with `--cfg gdsl_verif`).
+//!
+//! Under this cfg the node locks of the two sync flavours are this thin
+//! wrapper around `std::sync::RwLock`. Immediately before every `read()` /
+//! `write()` the installed callback (if any) is handed a probe of the lock and
+//! the requested mode. With no callback installed the cost is one relaxed
+//! atomic load. The wrapper has exactly the auto traits of the std lock.
+
+use std::sync::{
+    atomic::{AtomicBool, Ordering},
+    Arc, LockResult, RwLock as StdRwLock, RwLockReadGuard, RwLockWriteGuard, TryLockError,
+};
+
+#[derive(Clone, Copy, Debug, PartialEq, Eq)]
+pub enum Mode {
+    Read,
+    Write,
+}
+
+/// What a callback may ask about the lock that is about to be acquired.
+pub trait Probe {
+    /// Stable identity of the lock (its address).
+    fn id(&self) -> usize;
+    /// Would a `read()` succeed right now without blocking?
+    fn try_read_ok(&self) -> bool;
+    /// Would a `write()` succeed right now without blocking?
+    fn try_write_ok(&self) -> bool;
+    fn is_poisoned(&self) -> bool;
+}
+
+pub type Hook = dyn Fn(&dyn Probe, Mode) + Send + Sync;
+
+static ENABLED: AtomicBool = AtomicBool::new(false);
+static HOOK: StdRwLock<Option<Arc<Hook>>> = StdRwLock::new(None);
+
+/// Install (`Some`) or remove (`None`) the lock-point callback.
+pub fn set_hook(hook: Option<Arc<Hook>>) {
+    let on = hook.is_some();
+    *HOOK.write().unwrap_or_else(|e| e.into_inner()) = hook;
+    ENABLED.store(on, Ordering::SeqCst);
+}
+
+#[inline]
+fn lock_point(probe: &dyn Probe, mode: Mode) {
+    if ENABLED.load(Ordering::Relaxed) {
+        let hook = HOOK.read().unwrap_or_else(|e| e.into_inner()).clone();
+        if let Some(hook) = hook {
+            hook(probe, mode);
+        }
+    }
+}
+
+pub struct RwLock<T> {
+    inner: StdRwLock<T>,
+}
+
+impl<T> RwLock<T> {
+    pub fn new(value: T) -> Self {
+        RwLock {
+            inner: StdRwLock::new(value),
+        }
+    }
+
+    pub fn read(&self) -> LockResult<RwLockReadGuard<'_, T>> {
+        lock_point(self, Mode::Read);
+        self.inner.read()
+    }
+
+    pub fn write(&self) -> LockResult<RwLockWriteGuard<'_, T>> {
+        lock_point(self, Mode::Write);
+        self.inner.write()
+    }
+}
+
+impl<T> Probe for RwLock<T> {
+    fn id(&self) -> usize {
+        self as *const Self as *const u8 as usize
+    }
+
+    fn try_read_ok(&self) -> bool {
+        !matches!(self.inner.try_read(), Err(TryLockError::WouldBlock))
+    }
+
+    fn try_write_ok(&self) -> bool {
+        !matches!(self.inner.try_write(), Err(TryLockError::WouldBlock))
+    }
+
+    fn is_poisoned(&self) -> bool {
+        self.inner.is_poisoned()
+    }
+}
